@@ -93,11 +93,48 @@ def blueprint_probes(res: dict, w: World) -> None:
                 break
 
 
+def input_inits(case: dict) -> dict:
+    """Declared value of every input, read from the program text itself (source of truth)."""
+    out = {}
+    decl = {s[2]: s[3] for s in case["stmts"] if s[0] == "decl"}
+    for i in case["inputs"]:
+        d = decl.get(i["name"])
+        if d and d[0] == "siglit" and d[2][0] == "lit":
+            out[i["name"]] = d[2][1]
+        else:
+            out[i["name"]] = i["init"]
+    return out
+
+
+def bind_input_aliases(obs, case: dict) -> list[str]:
+    """The compiler labels an input's combinator with an alias when the program gives the value a
+    second name (`Bundle b = {i2};`).  Find such inputs under their alias; returns the names of
+    inputs that have no combinator at all."""
+    missing = []
+    for i in case["inputs"]:
+        nm = i["name"]
+        if nm in obs.inputs:
+            continue
+        found = False
+        for s in case["stmts"]:
+            if s[0] != "decl":
+                continue
+            e = s[3]
+            if e == ["var", nm] or (e[0] == "blit" and e[1] == [["var", nm]]):
+                if s[2] in obs.inputs:
+                    obs.inputs[nm] = obs.inputs[s[2]]
+                    found = True
+                    break
+        if not found:
+            missing.append(nm)
+    return missing
+
+
 def fmt_sigs(d: dict) -> dict:
     return names(d)
 
 
 __all__ = [
     "Violation", "skeleton", "compile_case", "settle_bound", "net_signature", "base_result",
-    "merge_fired", "probe", "blueprint_probes", "fmt_sigs", "Obs", "World", "ModelGap", "lang",
+    "merge_fired", "probe", "blueprint_probes", "fmt_sigs", "input_inits", "bind_input_aliases", "Obs", "World", "ModelGap", "lang",
 ]
